@@ -507,7 +507,9 @@ class C23(Prop):
                 for m in t:
                     data = t.extractfile(m).read() if m.isreg() else b""
                     mem.append([m.name.encode("utf-8", "surrogateescape").decode("latin-1"),
-                                m.type.decode("latin-1"), m.mode & 0o7777, b64(data), m.offset, m.offset_data])
+                                m.type.decode("latin-1"), m.mode & 0o7777, b64(data), m.offset, m.offset_data,
+                                [m.linkname.encode("utf-8", "surrogateescape").decode("latin-1"), m.uid, m.gid,
+                                 int(m.mtime), m.uname, m.gname]])
             obs["py"] = mem
         except Exception as e:  # noqa
             if type(e).__name__ == "_Timeout":
@@ -670,12 +672,15 @@ class C23(Prop):
         if "py" not in o:
             return None
         ar = unb64(o["ar"])
-        ms, mem = [], []
-        for name, ty, mode, data, off, od in o["py"]:
+        ms, mem, metas = [], [], []
+        for name, ty, mode, data, off, od, mt in o["py"]:
             d = unb64(data)
             ms.append(f"({coq_rle(ar[off:od])},{coq_rle(d)})")
             mem.append(f"({coq_bytes(name.encode('latin-1'))},({ord(ty)},{mode},{coq_rle(d)}))%N")
-        return f"CWrite {coq_list(ms)} {coq_rle(ar)} {coq_list(mem)}"
+            link, uid, gid, mtime, un, gn = mt
+            metas.append(f"({coq_bytes(link.encode('latin-1'))},({uid},{gid},{mtime}),"
+                         f"({coq_bytes(un.encode())},{coq_bytes(gn.encode())}))%N")
+        return f"CWrite {coq_list(ms)} {coq_rle(ar)} {coq_list(mem)} {coq_list(metas)}"
 
     def nontrivial(self, c):
         return (c["chunks"][0] < 4096 or c.get("fault") is not None or len(c["tree"]) >= 3
